@@ -46,11 +46,38 @@ def make_pair(case):
             ColorPair(t, gc.dec(w["other_bg"]), case.get("large", False)).is_readable
         except Exception as e:
             raise Violation(exc_bucket(e), f"ColorPair({t!r}, {w['other_bg']!r}) raised {e!r}")
+    tw = _twin(t, w.get("twin"))
+    if tw is not None:
+        # a look-alike of the text literal (its str(), its float / other-container form, its other letter case) was parsed on
+        # the same background earlier in this process: a parse memo keyed on a normalised form would confuse the two
+        try:
+            ColorPair(tw, b, case.get("large", False)).is_readable
+        except Exception as e:
+            raise Violation(exc_bucket(e), f"ColorPair({tw!r}, {b!r}) raised {e!r}")
     try:
         pair = ColorPair(t, b, case.get("large", False))
     except Exception as e:
         raise Violation(exc_bucket(e), f"ColorPair({t!r}, {b!r}) raised {e!r}")
     return pair, t, b
+
+
+def _twin(t, kind):
+    if not kind:
+        return None
+    if isinstance(t, (tuple, list)):
+        if kind == "str":
+            return str(t)
+        if kind == "float" and all(isinstance(x, int) and not isinstance(x, bool) for x in t):
+            return type(t)(float(x) for x in t)
+        if kind == "container":
+            return list(t) if isinstance(t, tuple) else tuple(t)
+        return None
+    if isinstance(t, str):
+        if kind == "swapcase" and t.swapcase() != t:
+            return t.swapcase()
+        if kind == "str":
+            return " " + t + " "
+    return None
 
 
 def true_original(pair, t, bg_rgb):
@@ -164,7 +191,8 @@ def warm():
     must not depend on it (a per-object memo or a cache keyed on part of the arguments would make them)."""
     other_bg = st.one_of(st.none(), st.none(), st.sampled_from(["#ffffff", "#000000", "#808080", "#b7439e"]))
     return st.one_of(st.none(), st.none(), st.fixed_dictionaries({"mode": st.sampled_from([0, 1, 2]), "very": st.booleans(),
-                                                                  "large": st.sampled_from([None, None, False, True]), "other_bg": other_bg}))
+                                                                  "large": st.sampled_from([None, None, False, True]), "other_bg": other_bg,
+                                                                  "twin": st.sampled_from([None, None, "str", "float", "container", "swapcase"])}))
 
 
 def call_make_readable(pair, case, **extra):
@@ -187,4 +215,4 @@ def call_make_readable(pair, case, **extra):
 
 def describe(case):
     return (f"text={gc.dec(case['text'])!r} bg={gc.dec(case['bg'])!r} large={case.get('large')} very={case.get('very')} mode={case.get('mode')}"
-            + (f" after a call with {case['warm']} on the same object" if case.get("warm") else ""))
+            + (f" after a call with {case['warm']} on the same object (twin / other_bg: a look-alike literal / the same literal on another background was parsed first)" if case.get("warm") else ""))
